@@ -14,12 +14,14 @@ def sh(cmd, **kw):
 try:
     r = sh("git -C /repo worktree add -q %s HEAD" % wt)
     assert r.returncode == 0, r.stderr
-    demo_dir = meta.get("demo_dir", "").strip("/")
+    demo_dir = meta.get("demo_dir", "").strip("/").replace("/tmp/seed2/", "").replace("/tmp/seed/", "")
+    import re as _re
+    flags = " ".join(f for f in ("-tags verif", "-race") if f in meta.get("demo_run", ""))
     demo_dst = os.path.join(wt, demo_dir, "zz_seed_demo_test.go")
     res = {}
     # demo on the clean tree
     shutil.copy(os.path.join(sd, "demo_test.go"), demo_dst)
-    r = sh("cd %s && go test -vet=off -count=1 ./%s/ 2>&1 | tail -3" % (wt, demo_dir))
+    r = sh("cd %s && go test %s -vet=off -count=1 ./%s/ 2>&1 | tail -3" % (wt, flags, demo_dir))
     res["demo_passes_without_change"] = "ok " in r.stdout and "FAIL" not in r.stdout
     os.remove(demo_dst)
     r = sh("git -C %s apply %s" % (wt, os.path.join(sd, "patch.diff")))
@@ -27,7 +29,7 @@ try:
     r = sh("cd %s && go build ./... && go build -tags verif ./... && go test -vet=off -count=1 ./... 2>&1 | grep -v '^ok' | grep -v 'no test files'" % wt)
     res["suite_passes_with_change"] = r.stdout.strip() == "" and r.returncode in (0, 1)
     shutil.copy(os.path.join(sd, "demo_test.go"), demo_dst)
-    r = sh("cd %s && go test -vet=off -count=1 ./%s/ 2>&1 | tail -3" % (wt, demo_dir))
+    r = sh("cd %s && go test %s -vet=off -count=1 ./%s/ 2>&1 | tail -3" % (wt, flags, demo_dir))
     res["demo_fails_with_change"] = "FAIL" in r.stdout
     os.remove(demo_dst)
     print("SEED %s/%s: %s" % (meta["property"], meta.get("variant", ""), res), flush=True)
